@@ -78,11 +78,16 @@ SAVE_ENSURES = (
 )
 _N = len(SAVE_ENSURES)
 _LABELS = {_N - 9: "h5-fresh-file-shape", _N - 8: "h5-same-run-file-shape",
-           _N - 7: "h5-fresh-file-content", _N - 6: "h5-same-run-file-content"}
+           _N - 7: "h5-fresh-file-content", _N - 6: "h5-same-run-file-content",
+           SAVE_ENSURES.index("disk_pickle('scheduler_pickled.pickle') is scheduler"): "scheduler-pickled",
+           SAVE_ENSURES.index("disk_pickle('loss_function_pickled.pickle') is loss_function"): "loss-pickled"}
+# C09 ("counted over its whole life, across ... checkpoint restores"): the scheduler - with its position - is what the
+# checkpoint holds and what a restore hands back; C09 owns exactly those obligations of the checkpoint chain
+_C09 = {"C09": r"/F/scheduler-(pickled|unpickled)"}
 # (c) the property as stated - KNOWN not to hold (append in place): checked on the body, never assumed by callers
 SAVE_CLAIMS = {"h5-any-previous-file-shape": _H5_SHAPE, "h5-any-previous-file-content": _H5_CONTENT}
 
-contract(f"{JP}::save_calibrator_state", params=_SAVE_PARAMS, props=["C04"],
+contract(f"{JP}::save_calibrator_state", params=_SAVE_PARAMS, props=["C04"], prop_groups=_C09,
          defs={"_same_run_prefix": ([], _PREFIX)}, labels=_LABELS,
          ensures=SAVE_ENSURES, claims=SAVE_CLAIMS, modifies=["ghost.disk"],
          notes="ghost disk model: files are named by their leaf name inside ONE checkpoint folder; the previous "
@@ -134,7 +139,8 @@ LOAD_ENSURES = (
 _LOAD_RET = ("tuple[seq[seq[real]],seq[real],arr2[real],int,int,int,opt[int],bool,opt[str],opt[int],opaque,str,"
              "opaque:BaseScheduler,opaque:BaseLoss,int,int,int,arr2[real],arr1[real],arr4[real],arr1[int],arr1[int]]")
 contract(f"{JP}::load_calibrator_state", params={"checkpoint_path": "opaque", "_code_state_version": "int"},
-         returns=_LOAD_RET, props=["C04"],
+         returns=_LOAD_RET, props=["C04"], prop_groups=_C09,
+         labels={LOAD_ENSURES.index("result[12] is disk_pickle('scheduler_pickled.pickle')"): "scheduler-unpickled"},
          requires=[f"disk_exists('{f}')" for f in (_J, _C, _H, "scheduler_pickled.pickle", "loss_function_pickled.pickle")]
          + [f"len(disk_json('{_J}', 'parameters_precision')) >= 1",
                    # a well-formed checkpoint: one csv column per declared parameter, all of one length
@@ -214,11 +220,12 @@ def of_self(clause):
 # (facet "disk": these quantified clauses are verified - and assumed by callers - in a pass of their own)
 CKPT_ENSURES = [F("disk", of_self(e)) for e in SAVE_ENSURES]
 _CKPT_PREFIX = of_self(_PREFIX)
-contract(f"{CA}::Calibrator.create_checkpoint", params={"file_name": "any"}, props=["C04", "C14"],
+contract(f"{CA}::Calibrator.create_checkpoint", params={"file_name": "any"}, props=["C04", "C14"], prop_groups=_C09,
          defs={"_same_run_prefix": ([], _CKPT_PREFIX)}, labels=_LABELS,
          ensures=CKPT_ENSURES,
-         ghost_ensures=["ghost.saved_index == self.current_batch_index", "ghost.saved_n == self.n_sampled_params"],
-         modifies=["ghost.disk", "ghost.saved_index", "ghost.saved_n"],
+         ghost_ensures=["ghost.saved_index == self.current_batch_index", "ghost.saved_n == self.n_sampled_params",
+                        "ghost.saved_sched_updates == ghost.sched_updates"],
+         modifies=["ghost.disk", "ghost.saved_index", "ghost.saved_n", "ghost.saved_sched_updates"],
          notes="one checkpoint folder is modelled (the folder named by file_name / saving_folder); files are "
                "identified by their name inside it")
 
@@ -270,7 +277,8 @@ _WELL_FORMED = [f"disk_exists('{f}')" for f in (_J, _C, _H, "scheduler_pickled.p
     "len(disk_pickle('scheduler_pickled.pickle').samplers) >= 1",
 ]
 contract(f"{CA}::Calibrator.restore_from_checkpoint", params={"checkpoint_path": "opaque", "model": "opaque"},
-         returns="obj:Calibrator", props=["C04"], requires=_WELL_FORMED,
+         returns="obj:Calibrator", props=["C04"], requires=_WELL_FORMED, prop_groups=_C09,
+         labels={i: "scheduler-unpickled" for i, e in enumerate(RESTORE_ENSURES) if "scheduler_pickled" in e},
          may_raise=["SearchSpaceError", "ValueError", "AssertionError", "Exception"],
          ensures=RESTORE_ENSURES, modifies=[],
          notes="the folder content is quantified over (any well-formed checkpoint of the declared schema)")
@@ -313,7 +321,7 @@ contract(_CRT, params={"cal": "obj:Calibrator", "folder": "opaque", "model": "op
             "forall(range(0, len(cal.param_grid.parameters_precision)), lambda q: "
             "result.param_grid.parameters_precision[q] == cal.param_grid.parameters_precision[q])",
             f"implies(not old(disk_exists('{_H}')), {_SERIES_EQ})", f"implies(_same_run_prefix(), {_SERIES_EQ})"])],
-         modifies=["ghost.disk", "ghost.saved_index", "ghost.saved_n"],
+         modifies=["ghost.disk", "ghost.saved_index", "ghost.saved_n", "ghost.saved_sched_updates"],
          notes="theorem over the proved contracts of create_checkpoint and restore_from_checkpoint: every component of the "
                "observable state comes back; the series only when the folder held no series file or an earlier checkpoint "
                "of the same run (otherwise: known finding stale-series-file)")
